@@ -28,6 +28,12 @@ pub struct Sim {
 }
 
 impl Sim {
+    /// records the state the entry has now as one it legitimately had (fault oracle of C07)
+    fn log(&self) {
+        if let Some(me) = self.cur {
+            legit_push(self.k, me);
+        }
+    }
     fn err(&mut self, msg: String) {
         let _s = Suspend::new();
         if self.errs.len() < 8 {
@@ -74,6 +80,7 @@ fn note_removed(sim: &mut Sim, lingering: bool) {
     }
     sim.in_old = false;
     sim.cur = None;
+    legit_absent(sim.k);
 }
 
 fn note_added(sim: &mut Sim, kid: u32, v: u32, vid: u32) {
@@ -81,6 +88,7 @@ fn note_added(sim: &mut Sim, kid: u32, v: u32, vid: u32) {
     sim.adds += 1;
     sim.in_old = false;
     sim.cur = Some(ME { kid, v, vid });
+    sim.log();
 }
 
 /// the closure body of (and_)replace_entry_with
@@ -99,6 +107,7 @@ fn replace_body<F: Fam>(sim: &mut Sim, k: &F::K, v: F::V, arg: Option<u32>) -> O
                 Some(d) => {
                     let nv = F::V::mk(me.v.wrapping_add(d));
                     sim.cur = Some(ME { kid: me.kid, v: nv.v(), vid: nv.id() });
+                    sim.log();
                     drop(v);
                     Some(nv)
                 }
@@ -125,6 +134,7 @@ fn modify_body<V: ValT>(sim: &mut Sim, v: &mut V, d: u32) {
         me.v = me.v.wrapping_add(d);
         v.set(me.v);
     }
+    sim.log();
 }
 
 fn write_through<V: ValT>(sim: &mut Sim, what: &str, r: &mut V, w: Option<u32>) {
@@ -134,6 +144,7 @@ fn write_through<V: ValT>(sim: &mut Sim, what: &str, r: &mut V, w: Option<u32>) 
         if let Some(me) = sim.cur.as_mut() {
             me.v = w;
         }
+        sim.log();
     }
 }
 
@@ -174,11 +185,13 @@ pub fn run_entry<F: Fam>(m: &mut Map<F>, key: F::K, chain: &Chain, sim: &mut Sim
         EEnd::Insert(v, ostep, oend) => {
             let val = F::V::mk(v);
             let vid = val.id();
+            let kk_for_log = sim.k;
             let had_key = sim.cur.is_some();
             match sim.cur.as_mut() {
                 Some(me) => {
                     me.v = v;
                     me.vid = vid;
+                    legit_push(kk_for_log, *me);
                 }
                 None => {
                     let kid = sim.vac_kid;
@@ -201,11 +214,13 @@ pub fn run_entry<F: Fam>(m: &mut Map<F>, key: F::K, chain: &Chain, sim: &mut Sim
             let was = sim.cur.is_some();
             let mut called = false;
             let mut made = (0u32, 0u32);
+            let (lk, lkid) = (sim.k, sim.vac_kid);
             let r = e.or_insert_with(|| {
                 tick(K_CLOSURE, (0, 0), (0, 0));
                 called = true;
                 let val = F::V::mk(v);
                 made = (val.v(), val.id());
+                legit_push(lk, ME { kid: lkid, v: made.0, vid: made.1 });
                 val
             });
             sc!(sim, called != was, "or_insert_with closure called = {} but entry occupied = {}", called, was);
@@ -228,6 +243,7 @@ pub fn run_entry<F: Fam>(m: &mut Map<F>, key: F::K, chain: &Chain, sim: &mut Sim
                 key_ok = k.k() == kk && k.id() == vac_kid;
                 let val = F::V::mk(k.k().wrapping_mul(3).wrapping_add(1));
                 made = (val.v(), val.id());
+                legit_push(kk, ME { kid: vac_kid, v: made.0, vid: made.1 });
                 val
             });
             sc!(sim, called != was, "or_insert_with_key closure called = {} but entry occupied = {}", called, was);
@@ -239,6 +255,10 @@ pub fn run_entry<F: Fam>(m: &mut Map<F>, key: F::K, chain: &Chain, sim: &mut Sim
         }
         EEnd::OrDefault(w) => {
             let was = sim.cur.is_some();
+            if !was {
+                // the default value (0) exists before any write through the returned reference
+                legit_push(sim.k, ME { kid: sim.vac_kid, v: 0, vid: 0 });
+            }
             let r = e.or_default();
             if !was {
                 let kid = sim.vac_kid;
@@ -277,6 +297,7 @@ fn run_occ<F: Fam>(mut o: OccupiedEntry<'_, F::K, F::V, VH>, ostep: OStep, oend:
             let old = o.insert(val);
             chk_v(sim, "OccupiedEntry::insert (returned value)", &old);
             sim.cur = Some(ME { kid: me.kid, v, vid });
+            sim.log();
             drop(old);
         }
     }
@@ -308,6 +329,7 @@ fn run_occ<F: Fam>(mut o: OccupiedEntry<'_, F::K, F::V, VH>, ostep: OStep, oend:
                 chk_k(sim, "replace_entry old key", &ok, me.kid);
                 chk_v(sim, "replace_entry old value", &ov);
                 sim.cur = Some(ME { kid: sim.new_kid, v, vid });
+                sim.log();
                 drop((ok, ov));
             } else {
                 drop(o);
@@ -318,6 +340,7 @@ fn run_occ<F: Fam>(mut o: OccupiedEntry<'_, F::K, F::V, VH>, ostep: OStep, oend:
                 let ok = o.replace_key();
                 chk_k(sim, "replace_key old key", &ok, me.kid);
                 sim.cur = Some(ME { kid: sim.new_kid, v: me.v, vid: me.vid });
+                sim.log();
                 drop(ok);
             } else {
                 drop(o);
@@ -421,10 +444,12 @@ pub fn run_raw<F: Fam>(m: &mut Map<F>, q: F::K, key: F::K, how: RawHow, chain: &
         EEnd::Insert(v, ostep, oend) => {
             let val = F::V::mk(v);
             let vid = val.id();
+            let kk_for_log = sim.k;
             match sim.cur.as_mut() {
                 Some(me) => {
                     me.v = v;
                     me.vid = vid;
+                    legit_push(kk_for_log, *me);
                 }
                 None => {
                     let kid = sim.new_kid;
@@ -450,11 +475,13 @@ pub fn run_raw<F: Fam>(m: &mut Map<F>, q: F::K, key: F::K, how: RawHow, chain: &
             let mut called = false;
             let mut made = (0u32, 0u32);
             let kobj = key.take().unwrap();
+            let (lk, lkid) = (sim.k, sim.new_kid);
             let (k, r) = e.or_insert_with(|| {
                 tick(K_CLOSURE, (0, 0), (0, 0));
                 called = true;
                 let val = F::V::mk(v);
                 made = (val.v(), val.id());
+                legit_push(lk, ME { kid: lkid, v: made.0, vid: made.1 });
                 (kobj, val)
             });
             sc!(sim, called != was, "raw or_insert_with closure called = {} but entry occupied = {}", called, was);
@@ -496,6 +523,7 @@ fn run_raw_occ<F: Fam>(mut o: RawOccupiedEntryMut<'_, F::K, F::V, VH>, ostep: OS
             let old = o.insert(val);
             chk_v(sim, "RawOccupiedEntryMut::insert (returned value)", &old);
             sim.cur = Some(ME { kid: me.kid, v, vid });
+            sim.log();
             drop(old);
         }
         OStep::GetKeyValue => {
@@ -516,6 +544,7 @@ fn run_raw_occ<F: Fam>(mut o: RawOccupiedEntryMut<'_, F::K, F::V, VH>, ostep: OS
             let old = o.insert_key(nk);
             chk_k(sim, "RawOccupiedEntryMut::insert_key (returned key)", &old, me.kid);
             sim.cur = Some(ME { kid: nkid, v: me.v, vid: me.vid });
+            sim.log();
             drop(old);
         }
     }
